@@ -275,7 +275,7 @@ def jobs(tier):
     N = 3 if q else 4
     B = 150 if q else 1200
     out = []
-    for dom, compound in (('O', False), ('M', False), ('Od2', True)):
+    for dom, compound in (('O', False), ('M', False), ('X', False), ('Od2', True)):
         for keyarg in ('key', 'variables'):
             out.append(dict(name='melt-recast/%s/%s' % (dom, keyarg), func='melt_recast',
                             params=dict(N=N - compound, dom=dom, compound=compound, keyarg=keyarg), budget=B))
